@@ -427,19 +427,24 @@ fn judge(out: &Outcome, obs: &mut Obs, key: u64) {
 }
 
 pub fn program_case(t: &mut Tape, obs: &mut Obs) -> CaseResult {
+    program_case_scaled(t, obs, false)
+}
+
+/// `small`: shorter waits and tail (for the coverage-guided front end, where executions are slower).
+pub fn program_case_scaled(t: &mut Tape, obs: &mut Obs, small: bool) -> CaseResult {
     let s = gen_setup(t);
-    let n = t.below(40) as usize;
+    let n = t.below(if small { 24 } else { 40 }) as usize;
     let mut schedule = vec![];
     for _ in 0..n {
         let wait = match t.below(4) {
             0 => 0,
             1 => t.below(8) as u32,
-            2 => t.below(80) as u32,
-            _ => t.below(600) as u32,
+            2 => t.below(if small { 30 } else { 80 }) as u32,
+            _ => t.below(if small { 90 } else { 600 }) as u32,
         };
         schedule.push((wait, gen_adv(t)));
     }
-    let tail = 200 + t.below(1500) as u32;
+    let tail = if small { 100 + t.below(200) as u32 } else { 200 + t.below(1500) as u32 };
     obs.label(&format!("app-{:?}", s.app));
     if s.pers.is_empty() && matches!(s.app, AppMode::Dp | AppMode::DpAndScanner | AppMode::LiveListAndDp) {
         obs.label("dp-master-without-peripherals");
@@ -499,6 +504,7 @@ pub fn property() -> Property {
         ],
         subchecks: vec![
             SubCheck::tape("programs", "random environment programs (up to 40 adversarial actions)", program_case),
+            SubCheck::tape("programs_small", "shorter programs (up to 24 actions, short waits; entry of the libFuzzer target fz_station)", |t, obs| program_case_scaled(t, obs, true)),
             SubCheck::index("exh2", "all sequences of 2 adversarial telegrams in each of 8 FDL states x 3 setups", |i, obs| exhaustive_case(i, 2, obs)),
             SubCheck::index("exh3", "all sequences of 3 adversarial telegrams in each of 8 FDL states x 3 setups", |i, obs| exhaustive_case(i, 3, obs)),
         ],
